@@ -60,7 +60,9 @@ Definition x_literal_value := literal_value bits_ops.
 Definition x_check := fun ss => match check_stmts ss [] with Some _ => true | None => false end.
 Definition x_build_prog := build_prog bits_ops.
 Definition x_inhabitsb := inhabitsb bits_ops.
-Extraction "model_shape.ml" x_builds x_build_accepts x_build_accepts_prog x_build_accepts_named
+Definition x_runtime_ok := runtime_ok bits_ops.
+Definition x_same_shape := same_shape bits_ops.
+Extraction "model_shape.ml" x_runtime_ok x_same_shape x_builds x_build_accepts x_build_accepts_prog x_build_accepts_named
   x_build_accepts_let_named x_conforms x_conforms_strict x_constraint_grammar x_literal_value x_check
   x_build_prog narrow narrow_st derive derive_st check_stmts x_inhabitsb shape_eqb known_c07 known_c07_wide fragment_prog cstmts_of.
 
